@@ -23,6 +23,8 @@ TEMPLATES = ["echo {1..%s}", "echo {%s..3}", "echo {a..z..%s}", "echo {1..5..%s}
              "mapfile -s %s a </dev/null", "mapfile -O %s a </dev/null", "read -t %s x </dev/null", "read -u %s x", "echo ${#%s}", "for ((i=%s; i<1; i++)); do :; done", "echo {%s,}", "hash -p /bin/ls %s"]
 HERE_TAGS = ["$(", "$( ", "`", "${", "$((", "'", '"', "\\", "E", "''", "<", "&", "(", ")", "$x", "\n", "", "é", "#", "E$(", "\"E\"F", "\\E"]
 HERE_TAILS = ["", " ", "  ", "\n", " x\n", "\nE\n", "\nx\nE", "\n\n", " <<F\nE\nF\n", ")\nE\n"]
+WORD_NEST = [('${a:-"', '"}', "y"), ("${a:-", "}", "y"), ('"${a:+', '}"', "y"), ("${a%", "}", "y"), ("${a/", "/z}", "y"), ('${a:-"$(echo "', '")"}', "y"), ("$((1+", "))", "1"), ("$(echo ", ")", "y"),
+             ("${a[", "]}", "0"), ("${a:", "}", "0"), ('"$[', ']"', "1"), ("@(", ")", "y"), ('"`echo ', '`"', "y")]
 NEST = [("(", ")", " :"), ("{ ", "; }", ":"), ("$(", ")", "echo x"), ("${x:-", "}", "y"), ("$((", "))", "1"), ("`", "`", None), ('"$(', ')"', "echo x"), ("[[ ! ", " ]]", "a"),
         ("if :; then ", "; fi", ":"), ("case x in x) ", ";; esac", ":"), ("while false; do ", "; done", ":"), ("f() { ", "; }", ":"), ("eval '", "'", None), ("! ", "", ":"), ("( ( ", " ) )", ":")]
 
@@ -58,6 +60,14 @@ def nest_family():
             out.append(op * k + inner + cl * k)
             out.append(op * k + inner + cl * (k - 1))          # one closer missing
             out.append(op * k)                                  # cut
+    # word-level nests (expansions nested through quotes), complete / one closer missing / cut, in the three places where
+    # a word reaches the word parser without the tokenizer having vetted it first: an argument, a here-document body, a prompt string
+    for op, cl, inner in WORD_NEST:
+        for k in (1, 2, 8, 24, 32, 40, 64):
+            for w in (op * k + inner + cl * k, op * k + inner + cl * (k - 1), op * k, op * k + inner):
+                out.append("echo " + w)
+                out.append("cat <<E\n" + w + "\nE\necho after\n")
+                out.append("x=" + shq(w) + "; echo \"${x@P}\"; echo after")
     return out
 
 
